@@ -111,8 +111,8 @@ func lineageFrom(parent *lineage, a *pubAnalysis, upTo int64) *lineage {
 
 type adoptStats struct {
 	adoptions, withPending, gen2, fs, spools int
-	maxPending                       int
-	shapes                           map[string]bool
+	maxPending                               int
+	shapes                                   map[string]bool
 }
 
 // adoptAndCheck restarts on a stop point and verifies what is resumed.
